@@ -170,8 +170,13 @@ def _g(rng, reps):
 
 @op("count", "argmax_first", "torch.argmax(input, dim=1)", SRC_ACC + ":_multiclass_accuracy_update")
 def _g(rng, reps):
-    # C >= 1: `argmax` over a zero-sized dim raises IndexError, the shape check `(n, num_classes)` with the `num_classes`
-    # parameter checks keeps C >= 1 on every modelled path (the model's `argmaxFirst [] = 0` is never consulted).
+    # C >= 1.  KNOWN DISAGREEMENT at C = 0 (found by this stream, reported to the coordinator): `torch.argmax` over a zero-sized
+    # dim raises `IndexError: argmax(): Expected reduction dim 1 to have non-zero size` (for every n, also n = 0) whereas
+    # `Count.argmaxFirst [] = 0`.  It IS reachable: `multiclass_accuracy/precision/recall/f1_score(input of shape (n, 0),
+    # num_classes=None)` pass the input check and raise in the real code, while the model answers (1.0 / nan).  The fix belongs
+    # to the callers' adapter (TE/Driver/Count.lean `mcPreds`: reject a 2-D input without columns with IndexError); once it is
+    # in, C >= 1 is the reachable domain of the primitive.  Extend the range of `c` below to 0 when the MODEL PRIMITIVE itself
+    # is changed to raise.
     for dt in FD:
         for _ in range(reps):
             n, c = rng.choice([0, 1, 2, 3, 4]), rng.choice([1, 2, 3, 4, 5])
@@ -263,7 +268,7 @@ def _g(rng, reps):
         return cmp
     for dt in FD:
         for _ in range(reps):
-            n, c = rng.choice([0, 1, 2, 3, 4]), rng.choice([1, 2, 3, 4, 5])
+            n, c = rng.choice([0, 1, 2, 3, 4]), rng.choice([0, 1, 2, 3, 4, 5])
             rows = [tie_vals(rng, c, GS) for _ in range(n)]
             k = rng.randint(0, c)
             x = ft([v for r in rows for v in r], dt, (n, c))
@@ -306,7 +311,7 @@ def _g(rng, reps):
 def _g(rng, reps):
     for dt in FD:
         for _ in range(reps):
-            n, c = rng.choice([0, 1, 2, 3]), rng.choice([1, 2, 3, 4])
+            n, c = rng.choice([0, 1, 2, 3]), rng.choice([0, 1, 2, 3, 4])
             rows = [[0] * c if rng.random() < 0.3 else [rng.choice([0, 0, 1, 2, 5]) for _ in range(c)] for _ in range(n)]
             x = ft([v for r in rows for v in r], dt, (n, c))
             yield {"input": x}, (lambda x=x: F.normalize(x, p=1, dim=1)), ratio(dt)
@@ -773,9 +778,9 @@ SRC_TOPK = "functional/ranking/retrieval_precision.py:get_topk / compute_nb_rele
 
 
 def _gather_case(rng, dt):
-    n, c = rng.choice([0, 1, 2, 3]), rng.choice([1, 2, 3, 4])
+    n, c = rng.choice([0, 1, 2, 3]), rng.choice([0, 1, 2, 3, 4])       # c = 0: every index is out of range
     x = ft([v for _ in range(n) for v in tie_vals(rng, c, GS)], dt, (n, c))
-    tg = [rng.randrange(c) for _ in range(n)]
+    tg = [rng.randrange(c) if c else 0 for _ in range(n)]
     if n and rng.random() < 0.3:
         tg[rng.randrange(n)] = rng.choice([-1, c, -c, c + 1])        # torch.gather does not wrap negative indices
     return x, it(tg)
@@ -887,7 +892,7 @@ def _g(rng, reps):
     "functional/ranking/num_collisions.py:num_collisions")
 def _g(rng, reps):
     for _ in range(reps):
-        n = rng.choice([1, 1, 2, 3, 5, 8])          # n >= 1: `repeat_interleave(0)` of an empty id tensor is outside this op
+        n = rng.choice(SIZES)
         x = it([rng.choice([-1, 0, 1, 2, 3]) for _ in range(n)])
 
         def thunk(x=x):
